@@ -37,6 +37,10 @@ func packageName(def interface{}) string {
 // 比如 gopkg.in/yaml.v2 中的函数在符号表中名称为 gopkg.in/yaml%2ev2.xxx
 func symbolPkgPath(pkg string) string {
 	const hex = "0123456789abcdef"
+	if strings.Contains(pkg, "%") {
+		// an import path cannot contain '%': the caller already passed the escaped form found in the symbol table
+		return pkg
+	}
 	slash := strings.LastIndex(pkg, "/")
 	var b strings.Builder
 	for i := 0; i < len(pkg); i++ {
